@@ -318,8 +318,12 @@ func runC05(c *Ctx) {
 				continue
 			}
 			for _, rv := range ret.Results {
-				switch rv.Type().Underlying().(type) {
+				switch rt := rv.Type().Underlying().(type) {
 				case *types.Slice, *types.Map:
+				case *types.Pointer:
+					if _, isStruct := rt.Elem().Underlying().(*types.Struct); !isStruct {
+						continue
+					}
 				default:
 					continue
 				}
@@ -338,7 +342,7 @@ func runC05(c *Ctx) {
 					}
 					key := fmt.Sprintf("leak:%s@%s", fr, core.FuncKey(fn))
 					if site, ok := inPlace[fr]; ok {
-						r.Fail("C05-L", key, p.InstrPos(ret), fmt.Sprintf("%s returns the %s kept in %s as a raw header after releasing %s, which it took itself; the callers then read it unlocked while %s changes it in place", core.FuncKey(fn), typeWord(rv.Type()), fr, want, site))
+						r.Fail("C05-L", key, p.InstrPos(ret), fmt.Sprintf("%s returns the %s kept in %s un-copied after releasing %s, which it took itself; the callers then read it unlocked while %s changes it in place", core.FuncKey(fn), typeWord(rv.Type()), fr, want, site))
 					} else {
 						r.Ok("C05-L", key, p.InstrPos(ret), "raw header returned, but every writer replaces the whole value (copy-on-write)")
 					}
@@ -724,8 +728,11 @@ var c05InitFns = map[string]string{
 }
 
 func typeWord(t types.Type) string {
-	if _, ok := t.Underlying().(*types.Map); ok {
+	switch t.Underlying().(type) {
+	case *types.Map:
 		return "map"
+	case *types.Pointer:
+		return "structure (by pointer)"
 	}
 	return "slice"
 }
@@ -802,8 +809,22 @@ func c05InPlaceWriters(w *core.LockWorld, tracked func(core.FieldRef) bool) map[
 				if !ok || !tracked(fr) {
 					continue
 				}
-				switch ld.Type().Underlying().(type) {
+				switch lt := ld.Type().Underlying().(type) {
 				case *types.Slice, *types.Map:
+				case *types.Pointer:
+					// a struct kept by pointer: changed in place when one of its fields is stored through the loaded pointer
+					if _, isStruct := lt.Elem().Underlying().(*types.Struct); isStruct {
+						for _, u := range core.Users(ld) {
+							if fa, ok := u.(*ssa.FieldAddr); ok {
+								for _, u2 := range core.Users(fa) {
+									if st, ok := u2.(*ssa.Store); ok && st.Addr == ssa.Value(fa) {
+										note(fr, fn, u2, "field store through the pointer")
+									}
+								}
+							}
+						}
+					}
+					continue
 				default:
 					continue
 				}
